@@ -165,10 +165,7 @@ def handshake_qos2(ctx):
                             "QoS 2 sends exactly one PUBREL after a PUBREC with reason < 0x80 (and only then completes on PUBCOMP)"))
     # PUBREL is produced only by the QoS 2 branch of publish(), behind the reason check
     n_src = 0
-    for fn_ in ctx.facts.fns:
-        if not fn_["file"].startswith("src/client/"):
-            continue
-        bb_ = ctx.world.body(fn_["path"])
+    for _role, bb_ in ctx.client_units():      # each piece of client code once, where it takes effect
         for i, t in bb_.calls(r"(AckTxBuilder::build|Context::ack)$"):
             args = (t["callee"].get("args") or [])
             if not any(a.endswith("PubrelReason") for a in args):
@@ -609,7 +606,20 @@ def _counter_fields(ctx, bits):
     if not h:
         raise AnchorLost("ContextHandle struct")
     pat = r"Atomic(U%d|<u%d>)" % (bits, bits)
-    return {f["name"] for f in h["variants"][0]["fields"] if re.search(pat, f["ty"])}
+    out = {f["name"] for f in h["variants"][0]["fields"] if re.search(pat, f["ty"])}
+    # the counters may be bundled in a private struct of their own that the handle shares (`ids: Arc<IdAllocator>`)
+    for f in h["variants"][0]["fields"]:
+        for path, a in ctx.facts.adts.items():
+            if path.startswith("client::") and a["kind"] == "struct" and re.search(r"\b%s\b" % re.escape(path), f["ty"]):
+                out |= {g["name"] for g in a["variants"][0]["fields"] if re.search(pat, g["ty"])}
+    return out
+
+
+def _is_counter_bundle(ctx, ty):
+    """A private struct of the client layer all of whose fields are atomic integers."""
+    a = ctx.facts.adt(re.sub(r"<.*$", "", ty))
+    return bool(a) and a["kind"] == "struct" and ty.startswith("client::") and bool(a["variants"][0]["fields"]) and \
+        all(re.search(r"atomic::Atomic(U16|U32|<u16>|<u32>)$", g["ty"]) for g in a["variants"][0]["fields"])
 
 
 @rule("IDALLOC", floor=8)
@@ -684,20 +694,70 @@ def idalloc(ctx):
                         "the allocated identifier reaches the packet unchanged (distinct counter values stay distinct)"))
     # I3 counter creation
     nb = ctx.body(r"client::context::Context::<[^>]*>::new$")
+    # the counter is created in Context::new, or in the constructor of the private struct that bundles the counters
+    # (which Context::new calls): all constructions of a 16-bit atomic in the client layer are listed
     init = []
-    for i, t in nb.calls(r"atomic::Atomic|std::convert::From::from$"):
-        rs = (t["callee"].get("resolved") or "") + " " + (t["callee"].get("self_ty") or "") + " " + t["callee"]["def"]
-        if re.search(r"atomic::Atomic(U16|<u16>)", rs) and t["ops"]:
-            init.append((i, nb.fold(t["ops"][0])))
-    out.append(Inst("IDALLOC", "counter-init", [v for _, v in init] == [1], nb.site(init[0][0]) if init else nb.site(0), "AtomicU16 initial values: %s" % [v for _, v in init], "created once, starting at 1"))
-    others = 0
     for f in ctx.facts.fns:
-        if f["path"] == nb.path or not f["file"].startswith("src/client"):
+        if not f["file"].startswith("src/client") or "::test" in f["path"]:
             continue
         b = ctx.world.body(f["path"])
-        for i, t in b.calls(r"atomic::Atomic(U16|::<u16>)::(new|from)$"):
-            others += 1
-    out.append(Inst("IDALLOC", "counter-single", others == 0, nb.site(0), "%d other AtomicU16 constructions in client/" % others, "one shared counter"))
+        for i, t in b.calls(r"atomic::Atomic|std::convert::From::from$"):
+            rs = (t["callee"].get("resolved") or "") + " " + (t["callee"].get("self_ty") or "") + " " + t["callee"]["def"]
+            nm_ = (callee_name(t) or "").split("::")[-1]
+            if re.search(r"atomic::Atomic(U16|<u16>)", rs) and nm_ in ("new", "from") and t["ops"]:
+                init.append((b.site(i), b.fold(t["ops"][0]), f["path"]))
+    in_new = [x for x in init if x[2] == nb.path]
+    reach_new = in_new or [x for x in init if any((callee_resolved(t) or "") == x[2] or strip_generics(callee_resolved(t) or "") == strip_generics(x[2]) for _, t in nb.calls())]
+    out.append(Inst("IDALLOC", "counter-init", [v for _, v, _ in init] == [1] and bool(reach_new), init[0][0] if init else nb.site(0), "AtomicU16 initial values: %s" % [v for _, v, _ in init], "created once, starting at 1"))
+    out.append(Inst("IDALLOC", "counter-single", len(init) <= 1, nb.site(0), "%d AtomicU16 construction(s) in client/" % len(init), "one shared counter"))
+    # nothing but the allocation itself ever changes a counter: no fetch_sub to "give an identifier back", no store to
+    # "start afresh" -- the identifier handed back or skipped belongs to whoever allocated in between
+    writers = []
+    n_add = 0
+    for f in ctx.facts.fns:
+        if not f["file"].startswith("src/") or "::test" in f["path"]:
+            continue
+        b = ctx.world.body(f["path"])
+        for i, t in b.calls(r"atomic::Atomic\w*(::<[^>]*>)?::(\w+)$"):
+            rs = (t["callee"].get("resolved") or "") + " " + (t["callee"].get("self_ty") or "") + " " + t["callee"]["def"]
+            if not re.search(r"Atomic(U16|U32|<u16>|<u32>)", rs):
+                continue
+            op = (callee_name(t) or "").split("::")[-1]
+            if op in ("new", "load", "from", "default", "into_inner", "get_mut", "as_ptr"):
+                continue
+            if op == "fetch_add" and len(t["ops"]) >= 2 and b.fold(t["ops"][1]) == 1:
+                n_add += 1
+                continue
+            writers.append("%s at %s" % (op, b.site(i)))
+    out.append(Inst("IDALLOC", "counter-writers", not writers and n_add >= 1, nb.site(0),
+                    "%d fetch_add(1) call(s) on the identifier counters; other writers: %s" % (n_add, writers or "none"),
+                    "the counters only ever advance by one per allocation (no fetch_sub / store / swap / compare_exchange anywhere)"))
+    return out
+
+
+# ------------------------------------------------------------------------------------ COMPLETE-ERR
+
+@rule("COMPLETE-ERR", floor=3)
+def complete_err(ctx):
+    """The context completes an operation with an error in exactly two situations, both in the outbound handler before
+    anything is written: the packet exceeds the server's Maximum Packet Size, or the send quota is exhausted. Every
+    other way an operation ends in an error is the drop of its channel (-> ContextExited): no other piece of code
+    sends `Err(..)` on a response channel (e.g. SocketClosed at end of stream, or an error for a stale waiter)."""
+    from effects import effects as _eff
+    out = []
+    n = 0
+    for role, body in ctx.client_units():
+        for e in _eff(ctx.world, body, 2, helpers=False):
+            if e.kind != "Complete" or e.detail.get("variant") != "Err":
+                continue
+            pay = e.detail["payload"]
+            errs = sorted({a[2] for a in pay if a[0] == "variant" and (a[1] or "").startswith("client::error::")} |
+                          {"MaximumPacketSizeExceeded" for a in pay if a[0] == "call" and a[1].endswith("validate_packet_size")})
+            ok = role == "outbound" and bool(errs) and set(errs) <= {"MaximumPacketSizeExceeded", "QuotaExceeded"}
+            n += 1
+            out.append(Inst("COMPLETE-ERR", "%s:%s#%d" % (role, "+".join(errs) or "unrecognised", len([o for o in out if o.key.startswith("COMPLETE-ERR:%s:" % role)])), ok, e.site(),
+                            "an operation is completed with Err(%s) in %s" % (", ".join(errs) or "?", role),
+                            "only the outbound handler, only MaximumPacketSizeExceeded / QuotaExceeded"))
     return out
 
 
@@ -738,7 +798,7 @@ def own(ctx):
     for b, i, n in leaks:
         out.append(Inst("OWN", "leak:%s:%s" % (short_ty(re.sub(r"<[^<>]*>", "", b.path)), short_ty(n)), False, b.site(i), "call of %s" % n, "none"))
     for b, i, ty in arcs:
-        out.append(Inst("OWN", "arc:%s" % short_ty(ty), bool(re.search(r"atomic::Atomic(U16|U32|<u16>|<u32>)$", ty)), b.site(i), "Arc::new::<%s>" % ty, "Arc only around the atomic identifier counters"))
+        out.append(Inst("OWN", "arc:%s" % short_ty(ty), bool(re.search(r"atomic::Atomic(U16|U32|<u16>|<u32>)$", ty)) or _is_counter_bundle(ctx, ty), b.site(i), "Arc::new::<%s>" % ty, "Arc only around the atomic identifier counters"))
     out.append(Inst("OWN", "sender-never-cloned", not clones, clones[0][0].site(clones[0][1]) if clones else "src/", "clones of completion / stream senders: %s" % ([(st, b.site(i)) for b, i, st in clones] or "none"),
                     "exactly one owner per sender, so dropping the context drops it"))
     closes = []
@@ -799,6 +859,19 @@ def own(ctx):
             out.append(Inst("OWN", "%s:enqueue-propagated@%s" % (name, len([o for o in out if o.key.startswith("OWN:%s:enqueue" % name)])), prop, e.site(),
                             "failed enqueue %s" % ("ends the operation with an error" if prop else "is ignored or may still end in a normal return (exits reachable from the failure: %s)" % [k for _, k, _b in outs]),
                             "fails immediately with ContextExited once the context is gone"))
+        # every request that was handed to the context is waited for: no normal return is reachable from the enqueue
+        # without passing the await of a response channel (the context's verdict -- refused, written, acknowledged --
+        # is what the operation reports)
+        rec_polls = [a["poll_bb"] for a in body.awaits()
+                     if "oneshot::Receiver" in ((body.term(a["poll_bb"])["callee"].get("self_ty") or "") + " " + (body.term(a["poll_bb"])["callee"].get("resolved") or ""))]
+        ok_exits = [x["bb"] for x in exits(ctx, body) if x["kind"] == "ok"]
+        for k_, e in enumerate(enq):
+            reach = body.reachable_from(e.inner_bb, avoid=rec_polls)
+            skipped = sorted(x for x in ok_exits if x in reach)
+            out.append(Inst("OWN", "%s:response-awaited@%d" % (name, k_), not skipped and bool(rec_polls), e.site(),
+                            "after the request is enqueued %s" % ("every normal return passes the await of a response channel" if not skipped else
+                                                                  "a normal return is reachable without awaiting the response: %s" % [body.site(x) for x in skipped][:3]),
+                            "the operation reports the context's verdict (MaximumPacketSizeExceeded, QuotaExceeded, the acknowledgement)"))
         for a in body.awaits():
             t = body.term(a["poll_bb"])
             st = (t["callee"].get("self_ty") or "") + " " + (t["callee"].get("resolved") or "")
@@ -823,7 +896,7 @@ def own(ctx):
                                 "on the cancelled edge of the awaited receiver the operation builds %s" % ("only the conversion of Canceled (ContextExited)" if not other else "other errors as well: %s" % other),
                                 "a dropped response channel is reported as ContextExited, whatever else is true"))
             ok = "oneshot::Receiver" in st
-            out.append(Inst("OWN", "%s:await@%s" % (name, len([o for o in out if o.key.startswith("OWN:%s:await" % name)])), ok, body.site(a["poll_bb"]),
+            out.append(Inst("OWN", "%s:await@%s" % (name, len([o for o in out if o.key.startswith("OWN:%s:await@" % name)])), ok, body.site(a["poll_bb"]),
                             "awaits %s" % (short_ty(t["callee"].get("self_ty") or "?")), "handle operations await nothing but their own oneshot::Receiver"))
     return out
 
@@ -896,6 +969,25 @@ def resume_pair(ctx):
         else:
             e, keyed = got[0]
             out.append(Inst("RESUME-PAIR", "ack=%s:removes" % c, True, e.site(), "%s removes the stored %s" % (c, rel[c]), ""))
+            # whatever the acknowledgement says: a refused PUBLISH (reason >= 0x80) is finished too
+            dep = []
+            for e_, _k in got:
+                for (d, s_) in hp.control_dep_closure(e_.inner_bb if not e_.via else e_.bb):
+                    t_ = hp.term(d)
+                    if t_["k"] != "switch":
+                        continue
+                    si_ = hp.switch_info(d)
+                    ats = hp.atoms_deep({"pl": si_["place"]}) if si_ and si_["kind"] == "discr" else (hp.atoms_deep(t_["op"]) if t_["op"].get("k") != "const" else set())
+                    if any(a[0] == "field" and a[2] == "reason" for a in ats):
+                        dep.append(hp.site(d))
+            unconditional = any(not [1 for (d, s_) in hp.control_dep_closure(e_.inner_bb if not e_.via else e_.bb)
+                                     if hp.term(d)["k"] == "switch" and any(a[0] == "field" and a[2] == "reason" for a in
+                                         (hp.atoms_deep({"pl": hp.switch_info(d)["place"]}) if hp.switch_info(d) and hp.switch_info(d)["kind"] == "discr"
+                                          else (hp.atoms_deep(hp.term(d)["op"]) if hp.term(d)["op"].get("k") != "const" else set())))]
+                                for e_, _k in got)
+            out.append(Inst("RESUME-PAIR", "ack=%s:removal-independent-of-reason" % c, unconditional, e.site(),
+                            "removal of the stored %s %s" % (rel[c], "does not depend on the reason code" if unconditional else "depends on the reason code tested at %s" % sorted(set(dep))),
+                            "acknowledged is acknowledged: nothing that was answered is re-sent on resume"))
     for a in sorted(set(rem_arms) - classes):
         out.append(Inst("RESUME-PAIR", "ack=%s:unexpected-removal" % a, False, rem_arms[a][0][0].site(), "removal from retrasmit_queue in arm %s" % a, "only PUBACK/PUBREC/PUBCOMP finish a stored packet"))
     return out
